@@ -135,6 +135,20 @@ func (e *bEngine) applyContract(st *bState, con *Contract, callee *ssa.Function,
 		e.oblige(st, "requires", fmt.Sprintf("%s.%d", short, i), g, at)
 		st.assume(g)
 	}
+	// rowsafe <cond>: the memory-safety precondition of a leaf over the ROWS of its operands (every polynomial it
+	// touches has more rows than the level of the ring).  Owed only by callers that ask for it (`safety rows`):
+	// most contracts say nothing about the shape of their inputs.
+	if e.safetyRows {
+		for i, raw := range con.Raw["rowsafe"] {
+			x, err := parser.ParseExpr(strings.TrimSpace(raw))
+			if err != nil {
+				panic(verr("%s: bad rowsafe clause %q", con.File, raw))
+			}
+			g := e.env(st, st, bind, nil, con, pkg).Term(x)
+			e.oblige(st, "requires", fmt.Sprintf("%s.rows%d", short, i), g, at)
+			st.assume(g)
+		}
+	}
 	// wlog <cond> given <guard>: the callee may choose the interpretation of a uniform element;
 	// the caller only owes the guard
 	for i, w := range con.Raw["wlog"] {
@@ -958,8 +972,12 @@ func (e *bEngine) runPath(st *bState, work *[]*bState, atReturn func(st *bState,
 				st.assume(Le(ConstI(0), ln))
 			}
 			fr.vals[x] = bSlice{arr: id, len: ln, cap: cp}
-		case *ssa.MakeMap, *ssa.MakeChan:
-			fr.vals[x.(ssa.Value)] = bOpaque{typ: x.(ssa.Value).Type(), name: "make"}
+		case *ssa.MakeMap:
+			// a new map has an identity of its own (a name): updates and reads of it are followed like those of
+			// an input map
+			fr.vals[x] = bOpaque{typ: x.Type(), name: e.freshName("newmap")}
+		case *ssa.MakeChan:
+			fr.vals[x] = bOpaque{typ: x.Type(), name: "make"}
 		case *ssa.Lookup:
 			// a map read: what an earlier update or read of the SAME map with the SAME key term gave (maps
 			// with scalar keys; everything else, and strings, yields an unconstrained value)
@@ -1209,7 +1227,7 @@ func (e *bEngine) doCall(st *bState, fr *bFrame, ci ssa.CallInstruction) {
 					setRes(freshRes("len"))
 				}
 			case bOpaque:
-				if nt, ok := opaqueNil(a); ok && a.name != "make" {
+				if nt, ok := opaqueNil(a); ok && !isMadeMap(a.name) {
 					// the length of an input map is a symbolic integer named after its access path
 					ln := Var(a.name+".len", SInt)
 					st.assume(Le(ConstI(0), ln))
@@ -1234,7 +1252,27 @@ func (e *bEngine) doCall(st *bState, fr *bFrame, ci ssa.CallInstruction) {
 				setRes(freshRes(b.Name()))
 			}
 		case "copy":
-			e.note("builtin copy on non-polynomial slices is not modelled")
+			// copy(dst, src) on slices of machine words (an RNS scalar): the elements of dst are forgotten; when both
+			// lengths are the same term the whole of src is copied and dst takes its ghost attributes (the ring
+			// element the residues stand for), otherwise those are forgotten too
+			d, ok1 := args[0].(bSlice)
+			sl, ok2 := args[1].(bSlice)
+			if ok1 && ok2 && !d.nil_ && !sl.nil_ && isWordType(e.obj(st, d.arr).typ) && isWordType(e.obj(st, sl.arr).typ) {
+				o := e.obj(st, d.arr)
+				o.elems = map[string]bVal{}
+				o.sym = e.freshName("copied")
+				o.ver++
+				if d.arr != sl.arr && st.norm(Eq(d.len, sl.len)).IsTrue() {
+					for _, g := range []string{"val", "mexp", "ntt", "uni"} {
+						arr := e.ghostArr(st, g)
+						st.ghost[g] = Store(arr, ConstI(int64(d.arr)), Select(arr, ConstI(int64(sl.arr))))
+					}
+				} else if d.arr != sl.arr {
+					e.havocPoly(st, d, "copy")
+				}
+			} else {
+				e.note("builtin copy on non-polynomial slices is not modelled")
+			}
 			setRes(freshRes("copy"))
 		case "append":
 			// append(s, t...) with both lengths known: a new array holding the elements of s, then those of t
@@ -1659,6 +1697,7 @@ func (e *bEngine) verify(caseSpec string) {
 	e.safety = len(con.Raw["safety"]) > 0
 	e.safetyIndex = false
 	e.safetyOverflow = false
+	e.safetyRows = false
 	for _, sf := range con.Raw["safety"] {
 		for _, f := range strings.Fields(sf) {
 			if f == "index" {
@@ -1666,6 +1705,9 @@ func (e *bEngine) verify(caseSpec string) {
 			}
 			if f == "overflow" {
 				e.safetyOverflow = true
+			}
+			if f == "rows" {
+				e.safetyRows = true
 			}
 		}
 	}
@@ -2111,3 +2153,14 @@ func (e *bEngine) clobber(st *bState, v bVal, seen map[string]bool, depth int) {
 		}
 	}
 }
+
+func isWordType(t types.Type) bool {
+	if t == nil {
+		return false
+	}
+	b, ok := t.Underlying().(*types.Basic)
+	return ok && b.Kind() == types.Uint64
+}
+
+// isMadeMap: the opaque value is a map created by make in the code under execution (never nil)
+func isMadeMap(name string) bool { return name == "make" || strings.HasPrefix(name, "newmap") }
